@@ -45,6 +45,18 @@ let handle kind a =
             | MPErr -> "Err:InvalidData"
             | MPPanic _ -> "Panic"
             | MPFuel -> "OutOfFuel")
+  | "bamv" ->
+      (* body (hex, "_" = empty): one read_record call, then the raw accessors of the record *)
+      let body = if a.(0) = "_" then [] else bytes_of_hex a.(0) in
+      let p f = function None -> "P" | Some x -> f x in
+      let hx b = if b = [] then "-" else hex_of_bytes b in
+      Some (match read_record_view body with
+            | RREof -> "Eof"
+            | RRErr InvalidInput -> "Err:InvalidInput"
+            | RRErr InvalidData -> "Err:InvalidData"
+            | RRErr UnexpectedEof -> "Err:UnexpectedEof"
+            | RRRec (n, c, s, q, d) ->
+                String.concat " " ["Ok"; p (function None -> "*" | Some x -> hx x) n; p hx c; p hx s; p hx q; p hx d])
   | _ -> None
 
 let () = run_driver handle
